@@ -139,6 +139,8 @@ class ChartGen:
         c = r.random()
         if k.cflags and c < 0.35:
             return 'c%d' % r.randrange(k.cflags)
+        if post and getattr(self, 'nil', False) and c < 0.15:
+            return r.choice(['__old__.nil == None', 'nil == None and __old__.nil == None', '__old__.nil == nil'])
         if post and c < 0.6:
             return r.choice(['x >= __old__.x', 'y >= __old__.y or x >= 0', '__old__.x <= x + 1',
                              'x - __old__.x < %d' % r.randint(3, 9), 'x - __old__.x < %d' % r.randint(3, 9),
@@ -172,6 +174,9 @@ class ChartGen:
         pre = ['x = 0', 'y = 0', 'seen = -1', 'last = -1']
         pre += ['v%d = %s' % (i, r.choice(['False', 'False', 'True'])) for i in range(k.flags)]
         pre += ['c%d = True' % i for i in range(k.cflags)]
+        self.nil = bool(getattr(k, 'nil', 0)) and r.random() < k.nil
+        if self.nil:
+            pre.append('nil = None')        # a variable that is defined and holds None
         sc = Statechart('g', preamble='\n'.join(pre))
         self.sc = sc
         budget = [r.randint(3, k.max_states)]
